@@ -47,7 +47,7 @@ func (c05) Budget(tier string) int {
 	if tier == "thorough" {
 		return 100000
 	}
-	return 640
+	return 2400
 }
 
 func (c05) Generate(seed uint64, i int, tier string) *Scenario {
